@@ -56,7 +56,7 @@ func c05StartWorkers(cfg verifh.Cfg) (func(op []string) string, func()) {
 		body := func(item int) {
 			c5.Inside(h, ga, verifh.NewRng(uint64(p.Int("rs", 1))*1000003+uint64(item)), -1, item, pan)
 		}
-		func() {
+		ended := c5.Watchdog(c5.StuckAfter, func() {
 			defer func() { _ = recover() }() // mr re-panics a mapper's panic in the caller
 			switch kind {
 			case "fx":
@@ -86,7 +86,10 @@ func c05StartWorkers(cfg verifh.Cfg) (func(op []string) string, func()) {
 					}, mr.WithWorkers(n))
 				}
 			}
-		}()
+		})
+		if !ended {
+			return "stuck"
+		}
 		// after a re-panicked mapper panic the remaining workers are still finishing
 		if !verifh.SettleGoroutines(base, 10*time.Second) {
 			return "TIMEOUT-goroutines " + c5.RunLine(h, ga, -1)
